@@ -25,61 +25,6 @@ func c13sat(x *big.Int) *big.Int {
 	return x
 }
 
-// c13spec: the statement's rule in exact arithmetic. slots = window before rolling (oldest first).
-func c13spec(slots *[window.WindowSize]uint64, consumed, price, target, denom, minP, since uint64) uint64 {
-	// roll by `since`, then add the parent's consumption into the slot it belongs to
-	var rolled [window.WindowSize]*big.Int
-	for i := 0; i < window.WindowSize; i++ {
-		rolled[i] = new(big.Int)
-		if since <= window.WindowSize {
-			j := i + int(since)
-			if j < window.WindowSize {
-				rolled[i].SetUint64(slots[j])
-			}
-		}
-	}
-	if since < window.WindowSize {
-		s := window.WindowSize - 1 - int(since)
-		rolled[s] = c13sat(new(big.Int).Add(rolled[s], new(big.Int).SetUint64(consumed)))
-	}
-	total := new(big.Int)
-	for i := 0; i < window.WindowSize; i++ {
-		total.Add(total, rolled[i])
-	}
-	total = c13sat(total)
-	T := new(big.Int).SetUint64(target)
-	P := new(big.Int).SetUint64(price)
-	next := new(big.Int).Set(P)
-	c := total.Cmp(T)
-	if c > 0 {
-		x := new(big.Int).Mul(P, new(big.Int).Sub(total, T))
-		x.Div(x, T)
-		x.Div(x, new(big.Int).SetUint64(denom))
-		if x.Sign() == 0 {
-			x.SetUint64(1)
-		}
-		next = c13sat(next.Add(next, x))
-	} else if c < 0 {
-		x := new(big.Int).Mul(P, new(big.Int).Sub(T, total))
-		x.Div(x, T)
-		x.Div(x, new(big.Int).SetUint64(denom))
-		if x.Sign() == 0 {
-			x.SetUint64(1)
-		}
-		if since > window.WindowSize {
-			x.Mul(x, new(big.Int).SetUint64(since/window.WindowSize))
-		}
-		next.Sub(next, x)
-		if next.Sign() < 0 {
-			next.SetUint64(0)
-		}
-	}
-	if next.Cmp(new(big.Int).SetUint64(minP)) < 0 {
-		next.SetUint64(minP)
-	}
-	return next.Uint64()
-}
-
 // c13manager builds a fee manager whose dimension-0 state is (price, slots, consumed) at time lastSec.
 func c13manager(price uint64, slots *[window.WindowSize]uint64, consumed uint64, lastSec uint64) *Manager {
 	m := NewManager(nil)
@@ -105,27 +50,155 @@ func c13since() uint64 {
 	return v
 }
 
-// VerifC13Exact: Manager.ComputeNext == the exact-arithmetic rule, next price >= min price; full 64-bit ranges.
-func VerifC13Exact() {
-	nsym := verifParam("symbolicWindowSlots", 2, 4)
-	var slots [window.WindowSize]uint64
-	for i := 0; i < nsym; i++ {
-		slots[window.WindowSize-1-i] = verifU64("slot")
+// c13total: the statement's window usage (saturating) after rolling `slots` by `since` and adding the parent's consumption.
+func c13rolled(slots *[window.WindowSize]uint64, consumed, since uint64) (rolled [window.WindowSize]uint64) {
+	for i := 0; i < window.WindowSize; i++ {
+		if since <= window.WindowSize {
+			j := i + int(since)
+			if j < window.WindowSize {
+				rolled[i] = slots[j]
+			}
+		}
 	}
+	if since < window.WindowSize {
+		s := window.WindowSize - 1 - int(since)
+		if rolled[s] > consts.MaxUint64-consumed {
+			rolled[s] = consts.MaxUint64
+		} else {
+			rolled[s] += consumed
+		}
+	}
+	return rolled
+}
+
+// VerifC13Window (linear part): for every elapsed time the rolled window returned by computeNextPriceWindow and its
+// saturating sum are exactly the statement's (oldest slots dropped, parent consumption added to the slot it belongs to).
+func VerifC13Window() {
+	nsym := verifParam("symbolicWindowSlots", 3, 10)
+	var slots [window.WindowSize]uint64
+	var w window.Window
+	for i := 0; i < nsym; i++ {
+		k := window.WindowSize - 1 - i
+		if i == nsym-1 {
+			k = 0 // the oldest slot is always among the symbolic ones
+		}
+		slots[k] = verifU64("slot")
+		binary.BigEndian.PutUint64(w[8*k:], slots[k])
+	}
+	consumed := verifU64("consumed")
+	since := c13since()
+	_, nw := computeNextPriceWindow(w, consumed, 1, 1, 1, 0, since)
+	want := c13rolled(&slots, consumed, since)
+	sum := uint64(0)
+	sat := false
+	for i := 0; i < window.WindowSize; i++ {
+		if binary.BigEndian.Uint64(nw[8*i:]) != want[i] {
+			verifFail("rolled-window-wrong")
+		}
+		if !sat {
+			if sum > consts.MaxUint64-want[i] {
+				sat = true
+				sum = consts.MaxUint64
+				verifReach("sum-saturates")
+			} else {
+				sum += want[i]
+			}
+		}
+	}
+	if window.Sum(nw) != sum {
+		verifFail("window-sum-wrong")
+	}
+	verifReach("end")
+}
+
+// c13price: the statement's price rule in exact arithmetic from the window usage `total`.
+func c13price(total, price, target, denom, minP, since uint64) uint64 {
+	T := new(big.Int).SetUint64(target)
+	P := new(big.Int).SetUint64(price)
+	next := new(big.Int).Set(P)
+	if total > target {
+		x := new(big.Int).Mul(P, new(big.Int).SetUint64(total-target))
+		x.Div(x, T)
+		x.Div(x, new(big.Int).SetUint64(denom))
+		if x.Sign() == 0 {
+			x.SetUint64(1)
+		}
+		next = c13sat(next.Add(next, x))
+	} else if total < target {
+		x := new(big.Int).Mul(P, new(big.Int).SetUint64(target-total))
+		x.Div(x, T)
+		x.Div(x, new(big.Int).SetUint64(denom))
+		if x.Sign() == 0 {
+			x.SetUint64(1)
+		}
+		if since > window.WindowSize {
+			x.Mul(x, new(big.Int).SetUint64(since/window.WindowSize))
+		}
+		next.Sub(next, x)
+		if next.Sign() < 0 {
+			next.SetUint64(0)
+		}
+	}
+	if next.Cmp(new(big.Int).SetUint64(minP)) < 0 {
+		next.SetUint64(minP)
+	}
+	return next.Uint64()
+}
+
+// c13sinceRep: elapsed seconds — representatives of "within the window" and of idle periods (multiplier since/10 = 1, 2,
+// 100); the thorough tier adds 0, 10 and a fully symbolic idle period.
+func c13sinceRep() uint64 {
+	var since uint64
+	switch k := verifChoose("sinceKind", verifParam("sinceKinds", 4, 7)); k {
+	case 0:
+		since = 1
+	case 1:
+		since = 11
+		verifReach("idle-decay")
+	case 2:
+		since = 25
+	case 3:
+		since = 1000
+	case 4:
+		since = 0
+	case 5:
+		since = window.WindowSize
+	case 6:
+		since = verifU64("sinceBig")
+		verifAssume(since > window.WindowSize)
+		verifAssume(since < 1<<40)
+	}
+	return since
+}
+
+// VerifC13Exact: Manager.ComputeNext == the exact-arithmetic price rule applied to the window usage, next price >= min
+// price; price, usage, target, denominator, minimum over the full 64-bit range.
+func VerifC13Exact() {
+	var slots [window.WindowSize]uint64
+	slots[window.WindowSize-1] = verifU64("slot")
 	consumed := verifU64("consumed")
 	price, target, denom, minP := verifU64("price"), verifU64("target"), verifU64("denom"), verifU64("min")
 	verifAssume(target >= 1)
 	verifAssume(denom >= 1)
-	since := c13since()
+	since := c13sinceRep()
 	m := c13manager(price, &slots, consumed, 100)
 	r := &c13Rules{}
 	r.min[0], r.denom[0], r.target[0] = minP, denom, target
 	for d := 1; d < fees.FeeDimensions; d++ {
-		r.denom[d], r.target[d] = 1, 1
+		r.denom[d], r.target[d] = 1, 0 // usage 0 == target 0: the other dimensions keep their price (no arithmetic)
 	}
 	next := m.ComputeNext(int64((100+since)*1000), r)
 	got := next.UnitPrice(0)
-	want := c13spec(&slots, consumed, price, target, denom, minP, since)
+	rolled := c13rolled(&slots, consumed, since)
+	total := uint64(0)
+	for i := 0; i < window.WindowSize; i++ {
+		if total > consts.MaxUint64-rolled[i] {
+			total = consts.MaxUint64
+			break
+		}
+		total += rolled[i]
+	}
+	want := c13price(total, price, target, denom, minP, since)
 	if got < minP {
 		verifFail("below-min-price")
 	}
@@ -149,11 +222,11 @@ func VerifC13Mono() {
 	price, target, denom, minP := verifU64("price"), verifU64("target"), verifU64("denom"), verifU64("min")
 	verifAssume(target >= 1)
 	verifAssume(denom >= 1)
-	since := c13since()
+	since := c13sinceRep()
 	r := &c13Rules{}
 	r.min[0], r.denom[0], r.target[0] = minP, denom, target
 	for d := 1; d < fees.FeeDimensions; d++ {
-		r.denom[d], r.target[d] = 1, 1
+		r.denom[d], r.target[d] = 1, 0 // usage 0 == target 0: the other dimensions keep their price (no arithmetic)
 	}
 	n1 := c13manager(price, &s1, c1, 100).ComputeNext(int64((100+since)*1000), r).UnitPrice(0)
 	n2 := c13manager(price, &s2, c2, 100).ComputeNext(int64((100+since)*1000), r).UnitPrice(0)
